@@ -158,12 +158,27 @@ func histScenario(run *vk.Run, srv *vsrv.Server, batch uint64, s int) {
 			run.Count("history_moderation_actions", 1)
 		}
 		vclient.Quiesce(live, 3, 20*time.Millisecond, 20*time.Second)
+		// an administrator looks at the (live, cached) group through the API in between
+		adminRead := false
+		if r.IntN(2) == 0 {
+			for _, p := range []string{"", "/.users/", "/.users/pres1"} {
+				srv.Do("GET", "/galene-api/v0/.groups/"+g+p, srv.AdminAuth(), nil)
+			}
+			note("the administrator reads the group, its user list and one user through the API")
+			run.Count("history_admin_reads", 1)
+			adminRead = true
+		}
 		// fresh logins of every entry must get exactly the configured set
 		for _, u := range users {
 			id := fmt.Sprintf("h%d-%d-f%d-%s", batch, s, round, u.name)
 			c, got, ok := login(id, u)
 			if !ok {
-				run.Inconclusive("fresh login failed for " + u.name)
+				// once more, to tell a refusal from a lost connection
+				c, got, ok = login(id+"-again", u)
+			}
+			if !ok {
+				run.Violation("history:right-password-refused:"+map[bool]string{true: "after-admin-read", false: "after-moderation-of-others"}[adminRead], fmt.Sprintf("a fresh login as %s with the configured password was refused (twice)", u.name),
+					map[string]any{"phase": "history", "batch": batch, "scenario": s, "trail": trail})
 				return
 			}
 			want := histExpectedPerms(u.role, u.raw, rec, unr)
